@@ -47,7 +47,7 @@ pub const CTLS: [Ctl; 4] = [
 const WRITE_BLOCKS: usize = 0x0200;
 
 /// (events, image) for a controller
-pub fn world_for(c: &Ctl) -> (Vec<Ev>, Vec<u8>) {
+pub fn world_for(c: &Ctl, quick: bool) -> (Vec<Ev>, Vec<u8>) {
   let mut img = vec![0u8; c.banks * 0x4000];
   // every bank: different block at 0x4000 and at 0x4100 (different opcodes, length, cycles)
   for b in 0..c.banks {
@@ -95,14 +95,15 @@ pub fn world_for(c: &Ctl) -> (Vec<Ev>, Vec<u8>) {
   let mut evs: Vec<Ev> = vec![Ev::Run(0x0150), Ev::Run(0x4000), Ev::Run(0x4100), Ev::Run(0x3FFA), Ev::Run(0x7FFF)];
   let mut blocks: Vec<(u16, u8, String)> = Vec::new(); // (register address, value, name)
   let small = c.banks < 128;
-  let bank_values: Vec<u8> = if small { vec![1, 2, c.banks as u8, c.banks as u8 + 1, 2 * c.banks as u8] } else { vec![0u8, 1, 2, 3, 5, 0x21, 0x45] };
+  // (the quick tier uses a reduced set of register values on the 128-bank images)
+  let bank_values: Vec<u8> = if small { vec![1, 2, c.banks as u8, c.banks as u8 + 1, 2 * c.banks as u8] } else if quick { vec![1u8, 2, 3, 0x41] } else { vec![0u8, 1, 2, 3, 5, 0x21, 0x45] };
   for k in bank_values.iter() {
     blocks.push((0x2100, *k, format!("bank({:02x})", k)));
   }
   if small {
     // bank numbers only: the small images are about the reduction to the cartridge's size
   } else if c.cart_type == 0x03 {
-    for u in [0u8, 1, 2, 3].iter() {
+    for u in if quick { vec![0u8, 1, 2] } else { vec![0u8, 1, 2, 3] }.iter() {
       blocks.push((0x4000, *u, format!("upper({})", u)));
     }
     for m in [0u8, 1].iter() {
@@ -316,7 +317,9 @@ pub fn run_pressure_cfg(image: &str, tier: &str, workers: usize) -> PoolResult {
 
 pub fn depth_for(tier: &str, cold: bool) -> usize {
   match (tier, cold) {
-    ("quick", _) => 3,
+    // the cache emptied before every event costs four mprotect calls per event: one level less
+    ("quick", true) => 2,
+    ("quick", false) => 3,
     (_, true) => 4,
     (_, false) => 4,
   }
@@ -352,7 +355,7 @@ pub fn run_cfg(image: &str, evs: &[Ev], depth: usize, cold: bool, workers: usize
 pub fn worker(args: &[String]) -> i32 {
   if args.len() >= 6 && args[0] == "run" {
     let ci: usize = args[2].parse().unwrap_or(0);
-    let (evs, _) = world_for(&CTLS[ci]);
+    let (evs, _) = world_for(&CTLS[ci], args[1] == "quick");
     let cold = args[4] == "1";
     let r = run_cfg(&args[3], &evs, depth_for(&args[1], cold), cold, crate::util::pool::default_workers());
     if progrun::write_u64s(&format!("{}.u64", args[5]), &r.results).is_err() {
@@ -379,7 +382,7 @@ pub fn worker(args: &[String]) -> i32 {
   }
   if args.len() >= 8 && args[0] == "detail" {
     let ci: usize = args[2].parse().unwrap_or(0);
-    let (evs, _) = world_for(&CTLS[ci]);
+    let (evs, _) = world_for(&CTLS[ci], args[1] == "quick");
     let cold = args[4] == "1";
     let idx: u64 = args[5].parse().unwrap_or(0);
     let depth: usize = args[6].parse().unwrap_or(1);
@@ -419,7 +422,7 @@ pub fn run(tier: &str) -> i32 {
   let mut states = 0u64;
   for ci in 0..n_ctl {
     let ctl = &CTLS[ci];
-    let (evs, img) = world_for(ctl);
+    let (evs, img) = world_for(ctl, tier == "quick");
     let image = world::write_rom_file(&img);
     let mut results: Vec<(String, Vec<u64>, usize)> = Vec::new(); // (cfg, digests, depth)
     // jit build: warm and cold, as worker processes
